@@ -647,6 +647,46 @@ func main() {
 						w.Send(0, sig.Msg{"type": "useraction", "kind": "kick", "source": "c0", "username": "alice", "dest": "c1", "value": "bye"})
 					},
 					func(w *sig.World) { offer(w); drain(w, 1) }}, Final: none},
+			// a join announces every member (their data is read under the group lock)
+			// while a member opens a stream (client lock, then the group's API and member list)
+			{Name: "web/join-vs-offer", Clients: 3, MaxPreempt: core.Pick(2, 3), Groups: map[string]string{"g": descPlain}, Setup: two,
+				Names: []string{"c2:join", "c1:offer"},
+				Threads: []func(w *sig.World){
+					func(w *sig.World) { w.Send(2, sig.Join("g", "carol", "pc")) }, offer}, Final: none},
+			{Name: "web/join-vs-setdata", Clients: 3, MaxPreempt: core.Pick(2, 3), Groups: map[string]string{"g": descPlain}, Setup: two,
+				Names: []string{"c2:join", "c1:setdata+offer"},
+				Threads: []func(w *sig.World){
+					func(w *sig.World) { w.Send(2, sig.Join("g", "carol", "pc")) },
+					func(w *sig.World) {
+						w.Send(1, sig.Msg{"type": "useraction", "kind": "setdata", "source": "c1", "username": "bob", "dest": "c1", "value": map[string]any{"k": "v"}})
+						offer(w)
+					}}, Final: none},
+			// a kick queued for a member that is handling its own leave: the
+			// kick was accepted (the member was still listed), so its loop
+			// must get to see it
+			{Name: "web/kick-vs-leave", Clients: 2, MaxPreempt: core.Pick(2, 3), Groups: map[string]string{"g": descPlain}, Setup: two,
+				Names: []string{"c0:kick c1", "c1:leave+drain"},
+				Threads: []func(w *sig.World){
+					func(w *sig.World) {
+						w.Send(0, sig.Msg{"type": "useraction", "kind": "kick", "source": "c0", "username": "alice", "dest": "c1", "value": "bye"})
+					},
+					func(w *sig.World) {
+						w.Send(1, sig.Msg{"type": "join", "kind": "leave", "group": "g"})
+						drain(w, 1)
+					}},
+				Final: func(w *sig.World) (string, *core.Violation) {
+					refused := false
+					for _, m := range w.Clients[0].Out {
+						if m["type"] == "usermessage" && m["kind"] == "error" {
+							refused = true
+						}
+					}
+					if !refused && !w.Clients[1].V.Closed {
+						return "", &core.Violation{Signature: "C13/queued-action-never-seen/kick",
+							What: "the operator's kick was accepted (the target was still a member, no error was returned) and queued for the target, whose loop handled its own leave and then its queue: the kick was never seen, the target is still connected"}
+					}
+					return fmt.Sprint(refused, w.Clients[1].V.Closed), nil
+				}},
 		} {
 			if !core.Want(rp.Name) {
 				continue
